@@ -14,6 +14,7 @@ def max_dname_depth : Nat := 10
 def max_queryer_recursion : Nat := 32
 def max_resolution_attempts : Nat := 3
 def net_call_funcs : List String := ["dialUDP", "exchange"]
+def shape_cacheable_reads_ledger_at_decision : Bool := true
 def shape_cached_descent_spends_depth : Bool := true
 def shape_chase_checks_deadline : Bool := true
 def shape_checkloop_before_ns_lookup : Bool := true
@@ -26,6 +27,7 @@ def shape_level_up_only_when_minimized : Bool := true
 def shape_nomin_retry_only_when_minimized : Bool := true
 def shape_queryer_debit_before_dispatch : Bool := true
 def shape_queryer_depth_check_before_dispatch : Bool := true
+def shape_resolvestate_literals_carry_work : Bool := true
 def shape_subquery_debit_before_resolve : Bool := true
 
 end SdnsVerif.Gen.C12
